@@ -619,7 +619,7 @@ class C13Check(LifeCheckBase):
         "pattern, probes)."
     )
     fault_kinds = ["peer_fit_failed"]
-    probes_expected = ["refit_other_n_features", "symbolic_default", "caller_dict_param", "second_fit_other_data", "window_overflow", "fresh_twin_compared", "params_compared", "stream_subject"]
+    probes_expected = ["refit_other_n_features", "symbolic_default", "caller_dict_param", "second_fit_other_data", "window_overflow", "fresh_twin_compared", "clone_twin_compared", "params_compared", "stream_subject"]
     assumptions = [
         "the reference is a fresh object built from a deep copy of the original constructor spec (not a clone of the used object, which would inherit a corrupted parameter)",
         "for partial_fit the reference receives the same fit-type calls since the last fit, so only leakage through earlier history and non-fit calls is judged",
@@ -779,6 +779,26 @@ class C13Check(LifeCheckBase):
                     break
                 if window is not None and not self._check_window(ctx, est, window, spec, Xq, subj, cond, t, op):
                     break
+                if name == "fit":
+                    # "... gives the same model as fitting a fresh clone on the same data": sklearn.clone of the used object
+                    try:
+                        from sklearn.base import clone
+
+                        ctwin = clone(est)
+                        self.apply_fit(ctwin, op, ds, spec)
+                        o3 = observe(ctwin, Xq, spec)
+                        cerr = None
+                    except Exception as e:
+                        cerr = e
+                    ctx.probe("clone_twin_compared")
+                    if cerr is not None or not obs_close(o1, o3):
+                        ctx.violate(
+                            "refit-differs-from-clone",
+                            subj,
+                            f"op {t}: after fit(dataset {op['d']}) the used object predicts differently from sklearn.clone(used object) fitted on the same data: {('clone raised ' + type(cerr).__name__ + ': ' + str(cerr)[:100]) if cerr is not None else obs_diff(o1, o3)[:2]}",
+                            cond,
+                        )
+                        break
             else:
                 if cur_dim is None or twin is None:
                     continue
